@@ -758,3 +758,96 @@ Proof.
   unfold expected, tables_of, stamp_all. unfold run in Hs. rewrite E1, E2 in Hs.
   apply in_flat_map. exists o. split; assumption.
 Qed.
+
+(* ---------------------------------------------------------------------------------------- *)
+(* the producer model composes with the handler theorems *)
+
+Lemma run_gen_app_db loopf h a : forall d b,
+  fst (run_gen loopf h d (a ++ b)) = fst (run_gen loopf h (fst (run_gen loopf h d a)) b).
+Proof.
+  induction a as [|o r IH]; intros d b; [reflexivity|].
+  simpl app. rewrite !run_gen_cons. simpl fst. apply IH.
+Qed.
+
+Lemma run_cfgs_db h cs : forall d,
+  fst (run h d (map (fun c => OpCfg (cr_kci c) (cr_keypers c)) cs)) =
+  fold_left (fun d c => fst (insert_cfg d (cr_kci c) (cr_keypers c))) cs d.
+Proof.
+  induction cs as [|c r IH]; intros d; [reflexivity|].
+  unfold run in *. simpl map. rewrite run_gen_cons. simpl. apply IH.
+Qed.
+
+Lemma run_eons_db h es : forall d,
+  fst (run h d (map (fun e => OpEon (er_eon e) (er_act e) (er_kci e)) es)) =
+  fold_left (fun d e => fst (insert_eon d (er_eon e) (er_act e) (er_kci e))) es d.
+Proof.
+  induction es as [|e r IH]; intros d; [reflexivity|].
+  unfold run in *. simpl map. rewrite run_gen_cons. simpl. apply IH.
+Qed.
+
+Lemma run_finalize_db h rs : forall d,
+  fst (run h d (flat_map (fun r => if r_success r then [OpGen (r_key r) (r_eon r)] else []) rs)) =
+  finalize_all d rs.
+Proof.
+  induction rs as [|r rest IH]; intros d; [reflexivity|].
+  unfold run, finalize_all in *. cbn [flat_map fold_left]. unfold finalize_one at 2.
+  destruct (r_success r); simpl app.
+  - rewrite run_gen_cons. simpl fst. apply IH.
+  - apply IH.
+Qed.
+
+(* one Sync of the producer model is the run of its operations *)
+Lemma sync_blocks_is_run h d nc ne rs :
+  sync_blocks d nc ne rs = fst (run h d (ops_of_sync nc ne rs)).
+Proof.
+  unfold sync_blocks, ops_of_sync, run. rewrite !run_gen_app_db.
+  fold (run h). rewrite run_cfgs_db, run_eons_db, run_finalize_db. reflexivity.
+Qed.
+
+Lemma generated_app a b : generated (a ++ b) = generated a ++ generated b.
+Proof. apply flat_map_app. Qed.
+
+Lemma generated_sync nc ne rs : generated (ops_of_sync nc ne rs) = successes rs.
+Proof.
+  unfold ops_of_sync. rewrite !generated_app.
+  assert (generated (map (fun c => OpCfg (cr_kci c) (cr_keypers c)) nc) = []) as ->.
+  { induction nc; simpl; auto. }
+  assert (generated (map (fun e => OpEon (er_eon e) (er_act e) (er_kci e)) ne) = []) as ->.
+  { induction ne; simpl; auto. }
+  simpl. unfold successes, generated. induction rs as [|r rest IH]; [reflexivity|].
+  cbn [flat_map]. destruct (r_success r).
+  - change (flat_map (fun o : op => match o with OpGen key e => [mkOut key e] | _ => [] end)
+              ([OpGen (r_key r) (r_eon r)] ++ flat_map (fun r0 : dkg_outcome => if r_success r0 then [OpGen (r_key r0) (r_eon r0)] else []) rest))
+      with (mkOut (r_key r) (r_eon r) ::
+            flat_map (fun o : op => match o with OpGen key e => [mkOut key e] | _ => [] end)
+              (flat_map (fun r0 : dkg_outcome => if r_success r0 then [OpGen (r_key r0) (r_eon r0)] else []) rest)).
+    rewrite IH. reflexivity.
+  - simpl app. exact IH.
+Qed.
+
+Lemma generated_pops ps : generated (ops_of_pops ps) = all_successes ps.
+Proof.
+  unfold ops_of_pops, all_successes. induction ps as [|p r IH]; [reflexivity|].
+  cbn [flat_map]. rewrite generated_app, IH. destruct p; simpl; [|reflexivity|reflexivity].
+  rewrite generated_sync. reflexivity.
+Qed.
+
+(* C20_from_the_key_generation_on *)
+Theorem from_the_key_generation_on : forall h ps,
+  wf_from h empty_db (ops_of_pops ps) -> accepting (ops_of_pops ps) ->
+  let d := fst (run h empty_db (ops_of_pops ps)) in
+  let outs := snd (run h empty_db (ops_of_pops ps)) in
+  let tbl := tables_of (ops_of_pops ps) in
+  let successful := stamp_all h (eons tbl) (cfgs tbl) (all_successes ps) in
+  Forall (fun e => e = ENone) (tick_errors outs) /\
+  (h_bcast h = true -> Permutation (handed_to MBroadcast outs ++ pending_pks h d) successful) /\
+  (h_cb h = true -> Permutation (handed_to MCallback outs ++ pending_pks h d) successful) /\
+  (forall ps' enum answers, ps = ps' ++ [PTick enum answers] -> pending_pks h d = []).
+Proof.
+  intros h ps W A d outs tbl successful.
+  destruct (each_exactly_once h (ops_of_pops ps) W A) as (H1 & H2 & H3 & H4 & _).
+  unfold successful, tbl. rewrite <- generated_pops. fold (expected h (ops_of_pops ps)).
+  repeat split; auto.
+  intros ps' enum answers ->. apply (H4 (ops_of_pops ps') enum answers).
+  unfold ops_of_pops. rewrite flat_map_app. simpl. reflexivity.
+Qed.
